@@ -111,6 +111,7 @@ func checkC09(p *Prog, res *Result, tier string) {
 	res.rule("C09-R10", "the repair queue has one consumer: the function that removes its head is reached from a single go statement that is not inside a loop (the removal does not look at what it removes)", 1)
 	res.rule("C09-R11", "the repair decides that there is nothing to repair from the getter's not-found error and the revision comparison, never from the length of the value it re-read (an empty value is a value)", 1)
 	res.rule("C09-R12", "the request handlers do not crash on the error path of a write (C20-R11): the repair queue is in memory and dies with the process", 2)
+	res.rule("C09-R13", "every field of the configuration structs of the backend packages is read: in particular both durations of the repair queue (check interval, minimum age of an entry) are consulted", 10)
 	res.rule("C09-R6", "on the write path the error of a committing call is returned as is (or wrapped) unless it was found nil or classified (errors.Is / == sentinel / conflict assertion)", 6)
 	res.rule("C09-R5", "a nil error is returned to the client only after success or a definite failure class", 6)
 
@@ -196,6 +197,7 @@ func checkC09(p *Prog, res *Result, tier string) {
 	checkSentinelIdentity(p, res, "C09-R9")
 	checkSingleRepairConsumer(p, res, "C09-R10")
 	checkRepairPresenceByError(p, res, "C09-R11")
+	checkConfigFieldsRead(p, res, "C09-R13")
 	// R12: the repair queue lives in memory. The error path of a write handler is where an unknown outcome is reported:
 	// a handler that panics there (a response that is nil whenever the error is not, dereferenced) takes the process
 	// and the queue with it, and the write is never repaired (C20-R11, server layer)
@@ -1221,18 +1223,40 @@ func checkSingleRepairConsumer(p *Prog, res *Result, rule string) {
 				return
 			}
 			seen[f] = true
-			for _, cs := range p.callers[f] {
-				if cs.Parent() == nil || cs.Parent().Pkg == nil || !strings.HasPrefix(cs.Parent().Pkg.Pkg.Path(), modPath) {
-					continue
+			var site func(cs ssa.CallInstruction, callee *ssa.Function, d int)
+			site = func(cs ssa.CallInstruction, callee *ssa.Function, d int) {
+				if cs.Parent() == nil || cs.Parent().Pkg == nil || !strings.HasPrefix(cs.Parent().Pkg.Pkg.Path(), modPath) || d > 8 {
+					return
 				}
 				if g, ok := cs.(*ssa.Go); ok {
 					goSites = append(goSites, g)
 					if loopOf(g.Block()) != nil {
 						inLoop = g
 					}
-					continue
+					return
+				}
+				// called through a function-typed parameter of the enclosing function (withLock(f)): the callers that
+				// matter are those of the enclosing function that hand it this very function
+				if !cs.Common().IsInvoke() && cs.Common().StaticCallee() == nil {
+					if prm, ok := resolve(cs.Common().Value).(*ssa.Parameter); ok && prm.Parent() == cs.Parent() {
+						idx := paramIndex(prm)
+						for _, cs2 := range p.callers[cs.Parent()] {
+							if cs2.Common().IsInvoke() || idx >= len(cs2.Common().Args) {
+								continue
+							}
+							for _, fv := range p.funcValues(cs2.Common().Args[idx], 0) {
+								if fv == callee {
+									site(cs2, cs.Parent(), d+1)
+								}
+							}
+						}
+						return
+					}
 				}
 				up(cs.Parent(), d+1)
+			}
+			for _, cs := range p.callers[f] {
+				site(cs, f, d)
 			}
 			// a function literal: where it is made is where it is called or started
 			if f.Parent() != nil {
@@ -1343,5 +1367,64 @@ func checkRepairPresenceByError(p *Prog, res *Result, rule string) {
 	}
 	if n == 0 {
 		res.und(rule, "repair: re-read", "-", "no call with a (value, .., error) result in the repair package")
+	}
+}
+
+// checkConfigFieldsRead (C09-R13): every field of a configuration struct of the backend packages is read somewhere.
+// A setting nobody reads silently does nothing; for the repair queue, whose two durations (how often to look, how old
+// an entry must be) are easy to mix up, an unread field means the other one is used in both places.
+func checkConfigFieldsRead(p *Prog, res *Result, rule string) {
+	n := 0
+	for _, rel := range []string{"pkg/backend/retry", "pkg/backend/scanner", "pkg/backend"} {
+		sp := p.ssaPkg(rel)
+		tn, ok := sp.Pkg.Scope().Lookup("Config").(*types.TypeName)
+		if !ok {
+			continue
+		}
+		st, ok := tn.Type().Underlying().(*types.Struct)
+		if !ok {
+			continue
+		}
+		for i := 0; i < st.NumFields(); i++ {
+			fv := st.Field(i)
+			reads := 0
+			for _, fa := range p.fields().addrs[fv] {
+				for _, ref := range *fa.Referrers() {
+					switch x := ref.(type) {
+					case *ssa.UnOp:
+						if x.Op == token.MUL {
+							reads++
+						}
+					case *ssa.Store:
+						if x.Addr != ssa.Value(fa) {
+							reads++ // the address itself handed on
+						}
+					case *ssa.DebugRef:
+					default:
+						reads++
+					}
+				}
+			}
+			// value-typed struct: x.F on a loaded struct
+			for _, f := range p.AllFuncs {
+				for _, b := range f.Blocks {
+					for _, ins := range b.Instrs {
+						if fl, ok := ins.(*ssa.Field); ok && fieldOfField(fl) == fv {
+							reads++
+						}
+					}
+				}
+			}
+			n++
+			construct := fmt.Sprintf("%s.Config.%s is read", sp.Pkg.Name(), fv.Name())
+			if reads == 0 {
+				res.bad(rule, construct, p.pos(fv.Pos()), "no code reads this configuration field: the setting is ignored, and where two settings of one kind exist (how often the repair queue is looked at / how old an entry must be before it is repaired) the other one is used in its place - an unknown-outcome write is then repaired while the original may still be committing, or much later than configured")
+			} else {
+				res.ok(rule, construct, p.pos(fv.Pos()), fmt.Sprintf("%d read(s)", reads))
+			}
+		}
+	}
+	if n == 0 {
+		res.und(rule, "configuration structs", "-", "no Config struct found in the backend packages")
 	}
 }
